@@ -7,6 +7,7 @@
 //!   rt run <file>                             execute the op lines of a trace / ops file
 //!   rt header                                 print only the header (declaration + query menu)
 
+mod boundary;
 mod comps;
 mod gen;
 mod nest;
@@ -985,6 +986,7 @@ fn main() {
     let args: Vec<String> = std::env::args().collect();
     match args.get(1).map(|s| s.as_str()) {
         Some("header") => print!("{}", header()),
+        Some("boundary") => boundary::run(),
         Some("run") => {
             let text = std::fs::read_to_string(&args[2]).expect("read ops file");
             print!("{}", header());
